@@ -88,6 +88,7 @@ namespace vh
 #include "vh_iso.h"
 #include "vh_pbo.h"
 #include "vh_vfs.h"
+#include "vh_frontends.h"
 
 static std::string handle(const std::string& verb, const std::vector<std::string>& f)
 {
@@ -108,6 +109,7 @@ static std::string handle(const std::string& verb, const std::vector<std::string
         else if (verb == "iso") { return vh::verb_iso(f); }
         else if (verb == "pbo") { return vh::verb_pbo(f); }
         else if (verb == "vfs") { return vh::verb_vfs(f); }
+        else if (verb == "front") { return vh::verb_front(f); }
         else { return "bad-verb"; }
     }
     catch (const std::exception& ex)
